@@ -864,8 +864,9 @@ def image_item(draw, idx, recipe, slot=None):
         # (now and then more numbered names are taken than any fixed number of attempts would try)
         names = [h.decode() + ext] + [h.decode() + ".%d%s" % (k, ext)
                                       for k in range(rnd.choice([0, 1, 2, 3, 1005 if rnd.random() < 0.15 else 2]))]
+        empty = rnd.random() < 0.3  # an existing file is an existing file, also when it is empty
         for nm in names:
-            recipe["out"].append([nm, b"PRE:" + nm.encode()])
+            recipe["out"].append([nm, b"" if empty and rnd.random() < 0.7 else b"PRE:" + nm.encode()])
     else:
         inside = rnd.choice([b"sub/in" + str(idx).encode(), b"./in" + str(idx).encode(), b"sub/../in" + str(idx).encode(),
                              b"{R}/{OD}/abs" + str(idx).encode(), b"../{OB}/in" + str(idx).encode()])
